@@ -166,6 +166,10 @@ prop('C26',
      level_note='Trusted: Kani/CBMC/cadical, split_registers model.')
 
 FS = ['--max-field-sensitivity-array-size', '512']
+# a Vec<Input> with three elements is ~600 bytes: above the default 512 the element variants stop being
+# constants for CBMC and every match arm (incl. hash-set inserts, K5) is explored
+FS2K = ['--max-field-sensitivity-array-size', '2048']
+FS4K = ['--max-field-sensitivity-array-size', '4096']
 
 prop('C09',
      builds=[dict(crate='ext', filters=['c09_'])],
@@ -364,8 +368,8 @@ prop('C04', wip=True,
      builds=[dict(crate='ext', filters=['c04_'])],
      default=dict(mem=8, timeout={'quick': 900, 'thorough': 2400}, cbmc_extra=FS, unwindset=['memcmp.0:400']),
      overrides=[(r'c04_tx_script_(coin|pred|contract)', dict(mem=16, tier='thorough', attempt=True, timeout=1800)),
-                (r'c04_el_message_data_predicate', dict(mem=12, timeout=1800))],
-     min_harnesses={'quick': 18, 'thorough': 21},
+                (r'c04_el_message_data_predicate', dict(mem=12, timeout=1800, tier='thorough', attempt=True))],
+     min_harnesses={'quick': 18, 'thorough': 23},
      functions_encoded=['fuel_tx::input::InputRepr::{*_offset, from_input}', 'fuel_tx::output::OutputRepr::{*_offset, from_output}', 'Input::{predicate_offset, predicate_data_offset, repr}',
                         'field::{ScriptGasLimit, ReceiptsRoot, Script, ScriptData, Policies, Inputs, Outputs, Witnesses}::*_offset / *_offset_at / inputs_predicate_offset_at for Script (chargeable_transaction.rs mod field, script.rs)',
                         'CommonMetadata::compute / ScriptMetadata (cached offsets)', '<T as Serialize>::to_bytes for Input, Output, Witness, Policies, Script'],
@@ -376,7 +380,7 @@ prop('C04', wip=True,
      level_text='Bounded model checking of the offset tables and accessors against the real encoder: every reported offset locates exactly the canonical bytes of the field, absent fields report None, cached (precomputed) offsets equal uncached ones.',
      level_note='Trusted: Kani/CBMC/cadical. Partial claim (Script kind + all input/output variants).')
 
-prop('C07', wip=True,
+prop('C07',
      builds=[dict(crate='ext', filters=['c07_'])],
      default=dict(mem=4, timeout={'quick': 600, 'thorough': 1200}, unwindset=['memcmp.0:70']),
      min_harnesses={'quick': 10, 'thorough': 10},
@@ -447,7 +451,7 @@ prop('C17',
 
 prop('C31', wip=True,
      builds=[dict(crate='vm', filters=['c31_', 'x31_'])],
-     default=dict(mem=12, timeout={'quick': 1200, 'thorough': 2400}, cbmc_extra=FS, unwindset=['memcmp.0:70']),
+     default=dict(mem=12, timeout={'quick': 1200, 'thorough': 2400}, cbmc_extra=FS4K, unwindset=['memcmp.0:70']),
      min_harnesses={'quick': 3, 'thorough': 3},
      functions_encoded=['Interpreter::init_predicate, Interpreter::init_inner', 'MemoryInstance::{reset, grow_stack, write_noownerchecks}', 'RuntimeBalances::to_vm (empty balances)', 'RuntimePredicate::from_tx',
                         '<Script as PrepareSign>::prepare_sign, to_bytes, id'],
@@ -460,7 +464,7 @@ prop('C31', wip=True,
 
 prop('C19', wip=True,
      builds=[dict(crate='vm', filters=['c19_'])],
-     default=dict(mem=8, timeout={'quick': 900, 'thorough': 2400}, cbmc_extra=FS, unwindset=['memcmp.0:34']),
+     default=dict(mem=8, timeout={'quick': 900, 'thorough': 2400}, cbmc_extra=FS2K, unwindset=['memcmp.0:34']),
      min_harnesses={'quick': 3, 'thorough': 3},
      functions_encoded=['fuel_vm::checked_transaction::balances::{initial_free_balances, add_up_input_balances, deduct_max_fee_from_base_asset, reduce_free_balances_by_coin_outputs}'],
      bounds=['Script transactions with 3..6 inputs covering all 7 input variants and up to 5 outputs covering coin / change / variable / contract outputs; asset ids are harness constants (base, one other, one asset without inputs); every amount, the fee limit and its presence: all u64 values'],
@@ -472,7 +476,7 @@ prop('C19', wip=True,
 
 prop('C20', wip=True,
      builds=[dict(crate='vm', filters=['c20_'])],
-     default=dict(mem=8, timeout={'quick': 900, 'thorough': 2400}, cbmc_extra=FS),
+     default=dict(mem=8, timeout={'quick': 900, 'thorough': 2400}, cbmc_extra=FS2K),
      min_harnesses={'quick': 2, 'thorough': 2},
      functions_encoded=['interpreter::executors::main::predicates::finalize_check_predicate', 'PredicatesChecked::gas_used', '<Script as Chargeable>::max_gas (free gas schedule)'],
      bounds=['a Script with three predicate inputs (coin, message-coin and message-data predicates); per-predicate outcomes ARBITRARY (passed with any gas, evaluated to false, gas mismatch, invalid owner); all 6 arrival orders; max_gas_per_tx: any u64'],
@@ -483,18 +487,18 @@ prop('C20', wip=True,
 
 prop('C05', wip=True,
      builds=[dict(crate='vm', filters=['c05_'])],
-     default=dict(mem=12, timeout={'quick': 1200, 'thorough': 2400}, cbmc_extra=FS, unwindset=['memcmp.0:200']),
-     min_harnesses={'quick': 3, 'thorough': 3},
+     default=dict(mem=12, timeout={'quick': 1200, 'thorough': 2400}, cbmc_extra=FS2K, unwindset=['memcmp.0:200']),
+     min_harnesses={'quick': 8, 'thorough': 8},
      functions_encoded=['<op::GM as Execute>::execute, Interpreter::metadata, interpreter::metadata::metadata', 'Interpreter::get_transaction_field, GTFInput::get_transaction_field',
                         'GMArgs::try_from, GTFArgs::try_from', 'init_inner placing the transaction bytes at tx_offset and computing the owner pointer: harnesses c31_init_* (run with C31)'],
      bounds=['GM: all 2^18 immediates, all destination registers, Script / Call / predicate contexts, with and without a call frame (symbolic saved $fp), symbolic chain id / gas price / tx offset / owner pointer',
              'GTF: a Script with one coin-predicate, one contract and one message-data-predicate input, a coin and a contract output, one witness, tip + max-fee policies, every scalar and byte symbolic; 90 selector/index combinations incl. wrong-family, absent-index, other-kind and all undefined selectors'],
      assumptions=[VM_STUBS_NOTE, 'selector numbers are the specification literals, not the GMArgs/GTFArgs enums'],
-     out_of_claim=['GTF on Create / Upload / Upgrade / Blob transactions (kind-specific selectors)', 'other input/output variants and shapes', 'gas charge of GTF (symbolic-schedule charge is asserted for GM)'],
+     out_of_claim=['GTF on Upload / Upgrade / Blob transactions (kind-specific selectors); Create is covered for the kind / create / script-foreign selectors only', 'other input/output variants and shapes', 'gas charge of GTF (symbolic-schedule charge is asserted for GM)'],
      level_text='Bounded model checking of the introspection instructions against a specification table: value selectors return the value of the executed transaction, pointer selectors point at exactly the canonical bytes of the field inside the encoded transaction, wrong-family / absent / other-kind / undefined selectors panic as specified; GM returns the configured values in every context.',
      level_note='Trusted: Kani/CBMC/cadical, split_registers model. Partial claim (Script kind).')
 
-prop('C06', wip=True,
+prop('C06',
      builds=[dict(crate='ext', filters=['c06_'])],
      default=dict(mem=10, timeout={'quick': 900, 'thorough': 2400}, cbmc_extra=FS, unwindset=['memcmp.0:70']),
      overrides=[(r'c06_policies_postcard_(legacy_all4|legacy_tip|expiration|owner_maxfee|all)$', dict(tier='thorough', attempt=True, mem=24, timeout=1500))],
